@@ -47,6 +47,8 @@ type c01Scenario struct {
 	Ops      []c01Op              `json:"ops"`
 	Faults   bool                 `json:"consul_faults"`
 	Shuffle  bool                 `json:"health_reply_order_shuffled"`
+	// Interleave: the goroutines makeConfig starts per service are scheduled statement by statement
+	Interleave bool `json:"makeconfig_interleaved"`
 }
 
 const c01Prefix = "urlprefix-"
@@ -164,6 +166,7 @@ func c01Gen(g *simcore.Tape, thorough bool) *c01Scenario {
 	}
 	sc.Faults = g.Chance(35)
 	sc.Shuffle = g.Chance(60)
+	sc.Interleave = g.Chance(30)
 	return sc
 }
 
@@ -439,6 +442,9 @@ func runC01(r *simcore.Run) {
 	e.sc.FaultsEnabled = sc.Faults
 	e.sc.ShuffleHealth = sc.Shuffle
 	e.start()
+	if sc.Interleave {
+		e.d.Sim.Activate("consul:*ServiceMonitor.makeConfig", "consul:*ServiceMonitor.serviceConfig")
+	}
 
 	next := 0
 	e.d.AddSource(func() []simcore.Event {
